@@ -81,3 +81,43 @@ chk("C20", "exploration", "E4-virtual-time",
     "Tens of thousands of generated struct shapes (1-8 fields in random order from 8 supported kinds, 7 unsupported kinds, 5 untagged kinds with sentinels, optional embedded struct; fields sharing a secret; 4 prefixes; failing fields: bad/trailing-garbage/double JSON, UnmarshalBinary errors), through StoreConfig.Structs and ParseFields+Apply. Checked: names requested == path.Join(prefix, tag) set, each field's content, untagged fields untouched, unsupported shapes rejected up front without requests or panic, a failing field reported while all others are filled, overwriting a populated []byte field changes neither the store nor sibling fields, Secret fields follow later polls.",
     "Arguments stay within the documented precondition (non-nil pointers, exported tagged fields, clean names).",
     "DESIGN.md section 4, C20")
+
+ENGINES += [
+ {"name": "E2-linearizability", "path": "harness/c14", "serves_properties": ["C14"], "kind_free_text": "history recorder at the client boundary (atomic logical clock) + porcupine v1.3.0 linearizability checker with the map model as sequential specification"},
+ {"name": "E6-scan", "path": "harness/internal/scan", "serves_properties": ["C05"], "kind_free_text": "byte scanner over every file written (raw, hex, JSON-escaped, base64 in all alignments, two layers) and mode-bit walker; tamper loop"},
+]
+chk("C05", "exploration", "E6-scan",
+    "byte scanners over all files after every operation and at every crash point of a save + counting proxy around a real AES256-GCM KEK + exhaustive single-bit-flip/truncation/splice tamper loop",
+    "Histories with 24-byte high-entropy marker names and values on a state directory holding the database and a real audit log (umask 0): after EVERY operation every file is searched for every marker in raw, hex, JSON-escaped and base64 form (all three alignments, two layers) and its mode bits are checked; the KEK proxy's call counter must not move after Open (also after a mid-history reopen). Tamper loop on saved files under real and dummy KEKs: every single-bit flip, every truncation length, degenerate contents, version edits, DEK/DB splices between databases under the same and under different KEKs, foreign KEKs: Open must fail or yield exactly the original contents, and must not rewrite the damaged file. Every crash point of a save is scanned for plaintext in leftovers (E5).",
+    "Only the listed encodings are searched; rollback to an older valid snapshot is excluded by the property.",
+    "DESIGN.md section 4, C05")
+chk("C06", "exploration", "E3-race",
+    "monitor audit sink (captures each record with a hash of the database file at that instant, counts syncs, scriptable Write/Sync failure) over sequential histories + 16-goroutine run on a real audit file under the race detector",
+    "Per call the records that reached the sink between invocation and return are compared with an expectation table (exactly one complete JSON line with principal, action, secret, version, authorized = model decision; none for an unchanged conditional get or an ill-formed put/activate; list = one info record). For mutations the database file must still have its pre-call bytes when the record arrives, and a Sync must follow before the return. In a third of the histories the Write or the Sync of one chosen record fails: the call must return no value, report failure and leave stored state unchanged. Concurrent part: unique (user, secret) per request on audit.NewFile; every line must parse alone and the multiset of records must equal the expected one.",
+    "For reads 'logged before returned' is observable only as fail-closedness. A failing Write may poison the writer for good (accepted).",
+    "DESIGN.md section 4, C06")
+chk("C08", "exploration", "E1-refmodel",
+    "in-process drive of the real handlers over the request product (endpoint x method x content type x browser header x WhoIs script x body), gate monitor (state dump + audit sink bytes) and reference model for accepted requests",
+    "The product of 7 methods x 6 content types x 5 browser-header values x 13 WhoIs scripts x 13 body kinds is enumerated for /api/get and /api/put (multi-gate combinations thinned in quick) and sampled for the other five endpoints, all from one source address so identity must be re-derived per request. Gate violations must be non-2xx, write no audit record, change no state and carry no marker; accepted requests must map to 200+decodable result / 304 empty / 403 / 404 / other 4xx-5xx exactly as the model with the ACL computed from the scripted capability map says; the audit principal must be the tailnet's answer; the real Client's error mapping is checked on top.",
+    "Bodies the property does not classify are grey (either a 4xx without side effects or the mapping for the decoded request). WhoIs answers keep Node/UserProfile non-nil.",
+    "DESIGN.md section 4, C08")
+chk("C09", "exploration", "E1-refmodel",
+    "reference-model monitor over histories with conditional gets for every interesting V through three front ends + concurrent toggle run",
+    "After every step of generated put/activate(forwards, backwards)/delete-version/delete/recreate histories, get-if-changed is issued with V in {0, 1, active, every number up to latest (existing and deleted), latest+1, 2^32-1} on both names and an absent one through db.GetConditional, HTTP handler + setec.Client and a FileClient on a document generated from the model, plus a caller without get permission; outcome class, version and bytes are compared with the model. Concurrent part: while the active version is toggled, a conditional get with V must never deliver version V itself.",
+    "For the FileClient the 'service' is the static document (non-empty values).",
+    "DESIGN.md section 4, C09")
+chk("C14", "exploration", "E2-linearizability",
+    "recorded concurrent histories (client-boundary stamps) decided by porcupine against the map model, under the Go race detector, with the audit sink as delay injector",
+    "Hundreds (quick) / tens of thousands (thorough) of small concurrent histories in three shapes (global with list over 32 names, per-key with all operations, spin-synchronised same-value put bursts), at the db.DB API and through the HTTP handlers, each followed by a final sequential full-state read; each history is decided exactly (exhaustive linearizability search, 60 s budget, timeouts counted as inconclusive). Any race-detector report is a violation.",
+    "Exact per history, but only for the schedules the stress produced; evidence reports distinct overlap patterns, lists overlapping two puts and overlapping same-value puts.",
+    "DESIGN.md section 4, C14")
+chk("C17", "exploration", "E4-virtual-time",
+    "the real backup loop (verif hook) inside a synctest bubble against an in-memory S3 endpoint; predicates over the stamped request log; spin watchdog outside the bubble",
+    "Generated timelines over virtual hours: sleeps around the one-minute boundary, bursts of real database writes with a file snapshot after every save, endpoint modes (ok, 403, 500 with SDK retries, held uploads with a write landing inside), a quiet tail, an idle hour, cancellation at a random point (also mid-upload). Checked: upload at start-up; every body byte-identical to a file that existed during the upload and opening with the server's key; uploads >= 60 s apart; no upload without a write since the last successful one began; failed uploads retried within a minute; newest backup = current file five minutes after writes and failures stop; no request during an idle hour; loop gone once cancellation has settled. A spinning loop is diagnosed by the watchdog (CPU + stack samples). One real-time smoke case through server.New.",
+    "VT: testing/synctest; SDK-internal retries grouped by invocation id. The pinned tree span and ignored cancellation (fixed in /repo commit ee5abb5).",
+    "DESIGN.md section 4, C17")
+chk("C18", "exploration", "E1-refmodel",
+    "byte-equality oracle over every retrieval path (incl. restart) + the built CLI binary executed against a logging loopback server with an independent text/whitespace oracle",
+    "Byte strings of all stated classes (every single byte, empty, whitespace shapes incl. Unicode, NULs, invalid UTF-8, look-alikes, random binary up to 4 MiB) are put through the real Client and read back through Get, GetVersion, a Store handle, the FileCache file, a FileClient on it, and all again after reopening the database behind a new server. The cmd/setec binary (rebuilt from the tree) runs with all 8 flag combinations from file and pipe; an independent oracle decides send-verbatim / send-trimmed / refuse; refusals must not contact the server, accepted puts must store exactly the expected bytes with one request.",
+    "With both --verbatim and --trim-space either result is accepted.",
+    "DESIGN.md section 4, C18")
